@@ -83,6 +83,19 @@ class GeneralKernel:
 
     function = "gbasis.evals._deriv._eval_deriv_contractions"
 
+    def fp_shapes(self, tier):
+        # ordinary samples plus tight primitives (exponent 750..5000, beyond exp(-alpha) underflow) at points 1e-3..5e-2 bohr from
+        # the centre, 30-60 bohr from the origin
+        sh = self.shapes(tier)
+        step = max(1, len(sh) // (8 if tier == "quick" else 30))
+        return sh[::step] + [dict(l=0, K=1, M=1, N=1, orders=[(0, 0, 0), (1, 0, 0), (0, 2, 0)], profile="tight-near"),
+                             dict(l=1, K=2, M=1, N=2, orders=[(0, 0, 0), (1, 1, 0)], profile="tight-near")]
+
+    def fp_domain_for(self, shape):
+        if shape.get("profile") == "tight-near":
+            return {"pos": (750.0, 5000.0), "zero_prob": 0.0, "real": 1.0, "real_by_prefix": {"T": (1e-3, 5e-2, True), "A": (30.0, 60.0, True)}}
+        return {}
+
     def shapes(self, tier):
         out = []
         if tier == "quick":
